@@ -272,6 +272,94 @@ def task_interval(variant):
 task_interval.contract_fn = "curves.BaseCurve.__add__"
 
 
+# --------------------------------------------------------------------------------------
+# engine B: control points of a NON-COMMUTATIVE type (2x2 matrices with +, scalar *, @): operand order of A @ B, M @ A, A @ M, and the other operators
+# --------------------------------------------------------------------------------------
+class M2:
+    """Minimal 2x2 matrix point over the rationals."""
+    __array_ufunc__ = None
+
+    def __init__(self, a, b, c, d):
+        self.v = (a, b, c, d)
+
+    def __add__(self, o):
+        if isinstance(o, (int, Fraction)) and o == 0:
+            return self
+        return M2(*[x + y for x, y in zip(self.v, o.v)])
+
+    __radd__ = __add__
+
+    def __sub__(self, o):
+        return M2(*[x - y for x, y in zip(self.v, o.v)])
+
+    def __neg__(self):
+        return M2(*[-x for x in self.v])
+
+    def __mul__(self, k):
+        if isinstance(k, M2):
+            raise TypeError("M2 * M2")
+        return M2(*[x * k for x in self.v])
+
+    __rmul__ = __mul__
+
+    def __truediv__(self, k):
+        return M2(*[x / k for x in self.v])
+
+    def __matmul__(self, o):
+        a, b, c, d = self.v
+        e, f, g, h = o.v
+        return M2(a * e + b * g, a * f + b * h, c * e + d * g, c * f + d * h)
+
+    def __eq__(self, o):
+        return isinstance(o, M2) and self.v == o.v
+
+    def __repr__(self):
+        return "M2%r" % (tuple(map(str, self.v)),)
+
+
+def task_matrix_points():
+    from ..report import FAILED, PROVED, ob
+    fn = "curves.BaseCurve.__matmul__"
+    out = []
+    UA = [F(0), F(0), F(1), F(2), F(2)]
+    UB = [F(0)] * 3 + [F(2)] * 3
+    PA = [M2(F(1), F(2), F(0), F(1)), M2(F(0), F(1), F(1), F(0)), M2(F(2), F(0), F(1), F(3))]
+    PB = [M2(F(1), F(0), F(2), F(1)), M2(F(1), F(1), F(0), F(2)), M2(F(0), F(3), F(1), F(1))]
+    K = M2(F(1), F(1), F(0), F(2))
+    us = [F(0), F(1, 2), F(1), F(3, 2), F(2)]
+
+    def val(U, P, u):
+        p = U.count(U[0]) - 1
+        N = spec.basis(U, p, p, u)
+        acc = None
+        for n_, q in zip(N, P):
+            acc = q * n_ if acc is None else acc + q * n_
+        return acc
+    cases = {
+        "A@B": (lambda A, B: A @ B, lambda a, b: a @ b), "B@A": (lambda A, B: B @ A, lambda a, b: b @ a),
+        "A+B": (lambda A, B: A + B, lambda a, b: a + b), "A-B": (lambda A, B: A - B, lambda a, b: a - b), "-A": (lambda A, B: -A, lambda a, b: -a),
+        "3*A": (lambda A, B: 3 * A, lambda a, b: a * 3), "A/2": (lambda A, B: A / 2, lambda a, b: a / 2),
+    }
+    for name, (op, want) in cases.items():
+        bad = None
+        try:
+            A, B = curves.Curve(list(UA), list(PA)), curves.Curve(list(UB), list(PB))
+            R = op(A, B)
+            for u in us:
+                exp = want(val(UA, PA, u), val(UB, PB, u))
+                if not (R(u) == exp):
+                    bad = "(%s)(%s) = %r, expected %r" % (name, u, R(u), exp)
+                    break
+        except Exception as e:
+            bad = "%s: %s" % (type(e).__name__, str(e)[:100])
+        out.append(ob("%s:matrix-points[%s]" % (fn, name), fn, FAILED if bad else PROVED, "B", "concrete", 0.0,
+                      bad or "pointwise with 2x2 matrix control points (non-commutative @)", dict(kind="c08.m2", case=name) if bad else None))
+    return out + [{"_stats": dict(cases=len(out))}]
+
+
+task_matrix_points.contract_fn = "curves.BaseCurve.__matmul__"
+
+
 def tasks(tier, seed):
     from ..pyvc.driver import verify
     from ..contracts import curvesv
@@ -294,11 +382,15 @@ def tasks(tier, seed):
         for variant in ((0,) if tier == "quick" else (0, 1)):
             ts.append((task_binary, (pr, variant, True, tier, True)))
     ts.append((task_interval, (0,)))
+    ts.append((task_matrix_points, ()))
     return ts
 
 
 def replay(o):
     w = o["witness"]
+    if w.get("kind") == "c08.m2":
+        r = [x for x in task_matrix_points() if "id" in x and x["id"].endswith("[%s]" % w["case"])][0]
+        return r["status"] == "failed", "pointwise result with matrix-valued control points", r["detail"]
     pt = {k: F(v) for k, v in (w.get("point") or {}).items()}
     variant = w["variant"]
     if w["kind"] == "c08.bin":
